@@ -506,66 +506,76 @@ def join(a, b):
     if b is None or b.bottom:
         return a.copy()
     out = State()
-    # ---- equalities entailed by both: intersection of the two row spaces
-    ra, rb = a.eqs(), b.eqs()
-    if ra and rb:
-        if len(a.rows) == len(b.rows) and all(
-                p in b.rows and b.rows[p].key() == r.key() for p, r in a.rows.items()):
-            out.rows = dict(a.rows)
+    # ---- equalities entailed by both: intersection of the two row spaces.
+    # Rows that are identical on both sides are kept as they are (their pivots
+    # occur in no other row, so the intersection splits); the general Karr join
+    # runs on the remaining rows only.
+    common = {}
+    ra, rb = [], []
+    for p, r in a.rows.items():
+        q = b.rows.get(p)
+        if q is not None and q.t == r.t and q.c == r.c:
+            common[p] = r
         else:
-            syms = sorted(set().union(*(r.t.keys() for r in ra), *(r.t.keys() for r in rb)))
-            idx = {s: i for i, s in enumerate(syms)}
-            n = len(syms) + 1
+            ra.append(r)
+    for p, r in b.rows.items():
+        if p not in common:
+            rb.append(r)
+    out.rows = common
+    if ra and rb:
+        syms = sorted(set().union(*(r.t.keys() for r in ra), *(r.t.keys() for r in rb)))
+        idx = {s: i for i, s in enumerate(syms)}
+        n = len(syms) + 1
 
-            def vec(l):
-                v = [0] * n
-                for k, c in l.t.items():
-                    v[idx[k]] = c
-                v[-1] = l.c
-                return v
-            RA = [vec(r) for r in ra]
-            RB = [vec(r) for r in rb]
-            M = RA + [[-c for c in r] for r in RB]
-            m = len(M)
-            rows = [[Fr(M[j][i]) for j in range(m)] for i in range(n)]
-            piv = []
-            rr = 0
-            for c in range(m):
-                p = None
-                for i in range(rr, n):
-                    if rows[i][c] != 0:
-                        p = i
-                        break
-                if p is None:
-                    continue
-                rows[rr], rows[p] = rows[p], rows[rr]
-                f = rows[rr][c]
-                if f != 1:
-                    rows[rr] = [v / f for v in rows[rr]]
-                prow = rows[rr]
-                for i in range(n):
-                    if i != rr:
-                        g = rows[i][c]
-                        if g != 0:
-                            rows[i] = [x - g * y for x, y in zip(rows[i], prow)]
-                piv.append(c)
-                rr += 1
-            pivset = set(piv)
-            for fcol in range(m):
-                if fcol in pivset:
-                    continue
-                z = [Fr(0)] * m
-                z[fcol] = Fr(1)
-                for i, pc in enumerate(piv):
-                    z[pc] = -rows[i][fcol]
-                v = [Fr(0)] * n
-                for j in range(len(RA)):
-                    if z[j] != 0:
-                        zj = z[j]
-                        v = [x + zj * y for x, y in zip(v, RA[j])]
-                l = Lin({syms[i]: v[i] for i in range(n - 1) if v[i] != 0}, v[-1])
-                if l.t:
-                    out.add_eq(l)
+        def vec(l):
+            v = [0] * n
+            for k, c in l.t.items():
+                v[idx[k]] = c
+            v[-1] = l.c
+            return v
+        RA = [vec(r) for r in ra]
+        RB = [vec(r) for r in rb]
+        M = RA + [[-c for c in r] for r in RB]
+        m = len(M)
+        rows = [[Fr(M[j][i]) for j in range(m)] for i in range(n)]
+        piv = []
+        rr = 0
+        for c in range(m):
+            p = None
+            for i in range(rr, n):
+                if rows[i][c] != 0:
+                    p = i
+                    break
+            if p is None:
+                continue
+            rows[rr], rows[p] = rows[p], rows[rr]
+            f = rows[rr][c]
+            if f != 1:
+                rows[rr] = [v / f for v in rows[rr]]
+            prow = rows[rr]
+            for i in range(n):
+                if i != rr:
+                    g = rows[i][c]
+                    if g != 0:
+                        rows[i] = [x - g * y if y else x for x, y in zip(rows[i], prow)]
+            piv.append(c)
+            rr += 1
+        pivset = set(piv)
+        for fcol in range(m):
+            if fcol in pivset:
+                continue
+            z = [0] * m
+            z[fcol] = 1
+            for i, pc in enumerate(piv):
+                z[pc] = -rows[i][fcol]
+            v = [0] * n
+            for j in range(len(RA)):
+                if z[j] != 0:
+                    zj = z[j]
+                    v = [x + zj * y if y else x for x, y in zip(v, RA[j])]
+            l = Lin({syms[i]: v[i] for i in range(n - 1) if v[i] != 0}, v[-1])
+            if l.t:
+                out.add_eq(l)
     # ---- inequalities
     for x, y in ((a, b), (b, a)):
         for i in x.ineq:
